@@ -149,6 +149,7 @@ def drange(t0 = None, t1 = None, bump = None):
     if bump is None:
         bump = 1 if t0<t1 else -1
     if is_int(bump):
+        bump = int(bump) # a numpy integer of a small width overflows in the products below
         if (t1-t0).days * bump <= 0:
             raise ValueError('cannot go from %s to %s in steps of %s'%(t0,t1,bump))
         freq = DAILY
